@@ -107,8 +107,8 @@ class NdefApp(object):
                 return b"\x67\x00"
             f = self.files[self.cur]
             off = p1 << 8 | p2
-            if p1 & 0x80:
-                return b"\x6A\x86"
+            if p1 & 0x80 and self.enforce:
+                return b"\x6A\x86"      # b8 of P1 selects a short file identifier; a lenient card reads a 16 bit offset
             if off > len(f):
                 return b"\x6B\x00"
             if self.enforce and le > self.mle:
@@ -123,7 +123,7 @@ class NdefApp(object):
                 return b"\x69\x82"
             f = self.files[self.cur]
             off = p1 << 8 | p2
-            if p1 & 0x80:
+            if p1 & 0x80 and self.enforce:
                 return b"\x6A\x86"
             if self.enforce and lc > self.mlc:
                 return b"\x67\x00"
